@@ -23,7 +23,7 @@ Print Assumptions C08_undecodable_dropped.
 
 (* an UNPROTECTED (epoch 0) record with a well-formed header whose content does not decode - unknown content
    type, malformed alert / change_cipher_spec / ACK / RRC - is dropped without any effect, in every state.
-   (Regression corpus: 63fefd000000000000f00500010a, 15fefd...0001ff, 14fefd...000102; before d2d55dd they were
+   (Regression corpus: 63fefd000000000000f00500010a, 15fefd...0001ff, 14fefd...000102; before 82cb644 they were
    answered with a fatal decode_error alert and ended the handshake / surfaced in Read.) *)
 Theorem C08_undecodable_content_dropped :
   forall (W : nat) (lease full : bool) (s : rstate) (w : wire),
@@ -42,24 +42,28 @@ Theorem C08_authenticated_undecodable_surfaces :
 Proof. exact authenticated_undecodable_surfaces. Qed.
 Print Assumptions C08_authenticated_undecodable_surfaces.
 
-(* STILL OPEN, as coded: a record typed change_cipher_spec claiming the current protected epoch is taken as
-   cleartext without any authentication; with a body other than 01 an unauthenticated sender obtains a fatal
-   decode_error alert and an error (Read error after establishment; the alert closes the peer).
-   Witness replayed by the harness: 14fefd0001 00000010xxxx 0001 02 *)
-Theorem C08_ccs_claiming_epoch_refuted :
+(* a record typed change_cipher_spec whose body is not 01 produces no output in any state, whatever epoch it
+   claims (no suite authenticates change_cipher_spec records; an undecodable one is discarded, 82cb644) ... *)
+Theorem C08_ccs_undecodable_no_output :
+  forall (W : nat) (lease full : bool) (s : rstate) (w : wire),
+    w_ctype w = ct_ccs -> w_clear w = CBad -> snd (recv_fb W lease full s w) = [].
+Proof. exact ccs_undecodable_no_output. Qed.
+Print Assumptions C08_ccs_undecodable_no_output.
+
+(* ... and claiming the current protected epoch of an established connection it leaves the state untouched.
+   (Regression corpus: 14fefd0001<seq>000102; before 82cb644 an unauthenticated sender obtained a fatal
+   decode_error alert and a Read error with it.) *)
+Theorem C08_ccs_claiming_epoch_dropped :
   forall (W : nat) (lease full : bool) (s : rstate) (w : wire),
     r_closed s = false -> r_init s = true -> w_epoch w <> 0 -> w_epoch w <= r_epoch s -> w_ctype w = ct_ccs ->
-    w_auth w = None -> w_clear w = CBad -> len (r_cid s) = 0 ->
-    check maxseq48 (get_win W (w_epoch w) (r_wins s)) (w_seq w) = true ->
-    recv_fb W lease full s w = (s, [OAlert alert_fatal desc_decode_error; OErr]).
-Proof. exact ccs_claiming_epoch_refuted. Qed.
-Print Assumptions C08_ccs_claiming_epoch_refuted.
+    w_clear w = CBad -> len (r_cid s) = 0 ->
+    recv_fb W lease full s w = (s, []).
+Proof. exact ccs_claiming_epoch_dropped. Qed.
+Print Assumptions C08_ccs_claiming_epoch_dropped.
 
-(* recv_fb with room in the reassembly buffer is the receive path of Rec/Recv.v (C05/C06), except for the
-   unprotected undecodable record above, which Recv.v still answers as the code did before d2d55dd *)
+(* recv_fb with room in the reassembly buffer IS the receive path of Rec/Recv.v (C05/C06) *)
 Theorem C08_recv_fb_is_recv :
-  forall (W : nat) (lease : bool) (s : rstate) (w : wire),
-    (w_epoch w =? 0) && is_bad (w_clear w) = false -> recv_fb W lease false s w = recv W lease s w.
+  forall (W : nat) (lease : bool) (s : rstate) (w : wire), recv_fb W lease false s w = recv W lease s w.
 Proof. exact recv_fb_open. Qed.
 Print Assumptions C08_recv_fb_is_recv.
 
@@ -150,7 +154,7 @@ Print Assumptions C08_queue_full_exception_refuted.
    is processed exactly as with room in the buffer *)
 Theorem C08_full_buffer_passes_non_handshake :
   forall (W : nat) (lease : bool) (s : rstate) (w : wire),
-    hs_content w = false -> recv_fb W lease true s w = recv_fb W lease false s w.
+    hs_content w = false -> recv_fb W lease true s w = recv W lease s w.
 Proof. exact full_buffer_passes_non_handshake. Qed.
 Print Assumptions C08_full_buffer_passes_non_handshake.
 
